@@ -102,11 +102,14 @@ pub enum Prov {
     FromBytesLostFF,
     /// deserialised from a stored artefact with seeded bit rot outside the range-checked fields
     FromBytesBitRot,
+    /// deserialised from a stored artefact in which one aligned block (32, 64 or 128 bytes) was never
+    /// written and reads back as zero; `stream[1]` selects size and position
+    FromBytesZeroBlock,
 }
 
 impl Prov {
     pub fn faulted(&self) -> bool {
-        matches!(self, Prov::FromBytesZeroPrefix | Prov::FromBytesLostZero | Prov::FromBytesLostFF | Prov::FromBytesBitRot)
+        matches!(self, Prov::FromBytesZeroPrefix | Prov::FromBytesLostZero | Prov::FromBytesLostFF | Prov::FromBytesBitRot | Prov::FromBytesZeroBlock)
     }
 }
 
@@ -116,6 +119,12 @@ pub fn storage_fault(prov: Prov, bytes: &mut [u8], rot_lo: usize, rot_hi: usize,
         Prov::FromBytesZeroPrefix => bytes[..32].iter_mut().for_each(|b| *b = 0),
         Prov::FromBytesLostZero => bytes.iter_mut().for_each(|b| *b = 0),
         Prov::FromBytesLostFF => bytes.iter_mut().for_each(|b| *b = 0xFF),
+        Prov::FromBytesZeroBlock => {
+            let sel = stream.get(1).copied().unwrap_or(0) as usize;
+            let size = [32usize, 64, 128][sel % 3];
+            let off = (size * ((sel / 3) % 8)).min(bytes.len() - size);
+            bytes[off..off + size].iter_mut().for_each(|b| *b = 0);
+        }
         Prov::FromBytesBitRot => {
             for (i, ch) in stream.chunks(4).take(6).enumerate() {
                 let r = u32::from_le_bytes([ch[0], ch[1 % ch.len()], ch[2 % ch.len()], ch[3 % ch.len()]]) as usize;
@@ -307,7 +316,7 @@ macro_rules! set_impl {
                                 .map_err(|e| format!("harness: round trip failed: {e}"))?;
                             Ok(sk2.clone())
                         }
-                        Prov::FromBytesZeroPrefix | Prov::FromBytesLostZero | Prov::FromBytesBitRot => {
+                        Prov::FromBytesZeroPrefix | Prov::FromBytesLostZero | Prov::FromBytesBitRot | Prov::FromBytesZeroBlock => {
                             let mut b = KG::keygen_from_seed(&c.seed).1.into_bytes();
                             // bit rot only where every value is valid: rho, K, tr and the t0 region
                             let (s0, s1) = INFO.s_region();
@@ -341,7 +350,7 @@ macro_rules! set_impl {
                                 .map_err(|e| format!("harness: round trip failed: {e}"))?;
                             Ok(sk2.get_public_key())
                         }
-                        Prov::FromBytesZeroPrefix | Prov::FromBytesLostZero | Prov::FromBytesLostFF | Prov::FromBytesBitRot => {
+                        Prov::FromBytesZeroPrefix | Prov::FromBytesLostZero | Prov::FromBytesLostFF | Prov::FromBytesBitRot | Prov::FromBytesZeroBlock => {
                             let mut b = KG::keygen_from_seed(&c.seed).0.into_bytes();
                             storage_fault(c.prov, &mut b, 0, m::PK_LEN, &c.stream);
                             PublicKey::try_from_bytes(b).map_err(|_| "unavailable: faulted public key is rejected".to_string())
